@@ -275,6 +275,10 @@ impl Prop for C17 {
         } else {
             None
         };
+        if fault.is_some() && r.chance(1, 2) {
+            // what a caller does when write_end fails: perhaps more samples, then write_end again
+            append_retry_tail(&mut sc, &mut r);
+        }
         let reposition = if fault.is_none() && r.chance(1, 16) {
             let api = 1 + r.below(sc.ops.len().max(1) as u64) as u32;
             let pos = match r.below(6) {
@@ -442,7 +446,7 @@ impl Prop for C17 {
         v
     }
     fn rule() -> String {
-        "seeded hostile muxing histories: the full value range of every public field (timescales incl. 0, empty/long/non-ASCII languages, SPS/PPS of 0..8 and >64 KiB bytes, mismatched track_type/media_conf, 0 or 300 brands, durations 0/u32::MAX, offsets i32::MIN/MAX, samples of 2^24-1/2^24/2^24+1 bytes, track ids 0/n+1/u32::MAX, no tracks), any call order up to write_end, a hard stream fault at a random call in 20% of the cases, the sink's position moved by somebody else between two calls in 6% (only the absence of panics is judged after either), the shared offset alternating between a low and a high region of one big file (gap 4 KiB..8 GiB, nothing overwritten: full read-back oracle) in 6%, in the thorough tier one history of 2^32 + 70 000 write_sample calls on one track (every call Ok or Err, and the finished file describes exactly the accepted samples), each call under catch_unwind in the overflow-checked and in the wrapping build; when every call succeeded inside the documented domain the C01 read-back, C02 relations and C14 comparisons are applied; distinct_nontrivial = distinct (API call, error message) pairs plus distinct outcome sequences of the first 24 calls".into()
+        "seeded hostile muxing histories: the full value range of every public field (timescales incl. 0, empty/long/non-ASCII languages, SPS/PPS of 0..8 and >64 KiB bytes, mismatched track_type/media_conf, 0 or 300 brands, durations 0/u32::MAX, offsets i32::MIN/MAX, samples of 2^24-1/2^24/2^24+1 bytes, track ids 0/n+1/u32::MAX, no tracks), any call order up to write_end, a hard stream fault at a random call in 20% of the cases (in half of them the caller reacts to a failed write_end with further samples and a second write_end), the sink's position moved by somebody else between two calls in 6% (only the absence of panics is judged after either), the shared offset alternating between a low and a high region of one big file (gap 4 KiB..8 GiB, nothing overwritten: full read-back oracle) in 6%, in the thorough tier one history of 2^32 + 70 000 write_sample calls on one track (every call Ok or Err, and the finished file describes exactly the accepted samples), each call under catch_unwind in the overflow-checked and in the wrapping build; when every call succeeded inside the documented domain the C01 read-back, C02 relations and C14 comparisons are applied; distinct_nontrivial = distinct (API call, error message) pairs plus distinct outcome sequences of the first 24 calls".into()
     }
     fn assumptions() -> Vec<String> {
         vec![
